@@ -303,3 +303,313 @@ Proof.
   - intros H. destruct (bslice b p) eqn:E; eauto.
     exfalso. apply (H e). now apply slice_exceptions_spec_l.
 Qed.
+
+(* ================= calls ================= *)
+Definition missing_key (d : asg) (ns : list Z) : Prop := exists n, In n ns /\ ~ In n (map fst d).
+(* a remaining dimension whose domain is not a singleton: ndarray.item() refuses *)
+Definition not_single (dims : list (var * nat)) (d : asg) : Prop :=
+  exists v s, In (v, s) dims /\ ~ In (vname v) (map fst d) /\ List.length (vdom v) <> 1%nat.
+(* the body of the function refers to a name that is not one of its parameters *)
+Definition free_name (f : fn) : Prop := exists n, In n (fv (fbody f)) /\ ~ In n (fparams f).
+
+(* [gv_dict_raises b d e]: b.get_value_for_assignment(d) raises e (d a dict) *)
+Definition gv_dict_raises (b : brel) (d : asg) (e : err) : Prop :=
+  match b with
+  | RZero _ => e = EValue /\ d <> []
+  | RUnary v par body =>
+      (e = EKey /\ ~ In (vname v) (map fst d)) \/
+      (e = EName /\ In (vname v) (map fst d) /\ exists n, In n (fv body) /\ n <> par)
+  | RBool v => e = EKey /\ ~ In (vname v) (map fst d)
+  | RFun f vars _ _ =>
+      (e = EKey /\ unknown_key d (map vname vars)) \/
+      (e = EType /\ ~ unknown_key d (map vname vars) /\ missing_key d (map vname vars)) \/
+      (e = EName /\ ~ unknown_key d (map vname vars) /\ ~ missing_key d (map vname vars) /\ free_name f)
+  | RMat dims _ _ =>
+      (e = EAttr /\ unknown_key d (mnames dims)) \/
+      (e = EValue /\ ~ unknown_key d (mnames dims) /\ (out_of_domain dims d \/ not_single dims d))
+  | RNeutral _ => False
+  end.
+
+Lemma not_missing_all d ns : ~ missing_key d ns -> forall n, In n ns -> In n (map fst d).
+Proof.
+  intros H n Hn. destruct (in_dec Z.eq_dec n (map fst d)); auto. exfalso. apply H. exists n. auto.
+Qed.
+
+Lemma not_unknown_all d ns : ~ unknown_key d ns -> forall k, In k (map fst d) -> In k ns.
+Proof.
+  intros H k Hk. destruct (in_dec Z.eq_dec k ns); auto. exfalso. apply H. exists k. auto.
+Qed.
+
+Lemma forallb_false_ex {A} (f : A -> bool) l : forallb f l = false <-> exists x, In x l /\ f x = false.
+Proof.
+  induction l as [|a l IH]; simpl.
+  - split; [discriminate | intros [x [[] _]]].
+  - destruct (f a) eqn:E; simpl.
+    + rewrite IH. split; intros [x [H1 H2]]; exists x; auto. destruct H1; auto. congruence.
+    + split; auto. intros _. exists a. auto.
+Qed.
+
+(* the function call inside a well-formed function relation *)
+Lemma fn_call_exceptions f vars mapping fkw d e :
+  wf_fun f vars mapping fkw -> NoDup (map fst d) ->
+  (forall k, In k (map fst d) -> In k (map vname vars)) ->
+  (fn_call f (map (gmap mapping) d) = Err e <->
+   (e = EType /\ missing_key d (map vname vars)) \/
+   (e = EName /\ ~ missing_key d (map vname vars) /\ free_name f)).
+Proof.
+  intros Hwf Hd Hin. pose proof (wf_fun_facts _ _ _ _ Hwf) as (Hfst & Hsnd & Hargs).
+  destruct Hwf as (Hn & Hpar & Hfix & _).
+  set (a := map (gmap mapping) d).
+  assert (Eall : forallb (fun kv => has_key (fst kv) mapping) d = true).
+  { apply (forallb_keys (fun k => has_key k mapping)). intros k Hk. apply has_key_iff. rewrite Hfst.
+    apply Hin. now apply has_key_iff. }
+  assert (Hfa_sub : forall p, In p (func_args f) -> In p (fparams f) /\ has_key p (ffixed f) = false).
+  { intros p Hp. unfold func_args in Hp. apply filter_In in Hp as [H1 H2]. split; auto. now apply negb_true_iff. }
+  assert (Ha_sub : forall p, has_key p a = true -> In p (func_args f)).
+  { intros p Hp. apply has_key_gmap in Hp as [k [_ Ek]]; auto.
+    apply Hargs. apply zlookup_In in Ek. change p with (snd (k, p)). now apply in_map. }
+  assert (Hfst_nd : NoDup (map fst mapping)) by (now rewrite Hfst).
+  (* all arguments received <-> no variable missing *)
+  assert (Hcov : forallb (fun p => has_key p a) (func_args f) = false <-> missing_key d (map vname vars)).
+  { rewrite forallb_false_ex. split.
+    - intros [p [Hp Hk]]. apply Hargs in Hp. apply in_map_iff in Hp as [[n p'] [E Hnp]]. simpl in E; subst p'.
+      exists n. split.
+      + rewrite <- Hfst. change n with (fst (n, p)). now apply in_map.
+      + intros Hnd. assert (has_key p a = true); [|congruence].
+        apply has_key_gmap; auto. exists n. split; auto. now apply In_zlookup.
+    - intros [n [Hn' Hnd]]. rewrite <- Hfst in Hn'. apply in_map_iff in Hn' as [[n' p] [E Hnp]]. simpl in E; subst n'.
+      exists p. split.
+      + apply Hargs. change p with (snd (n, p)). now apply in_map.
+      + destruct (has_key p a) eqn:Ek; auto. exfalso. apply has_key_gmap in Ek as [k [Hk Ek]]; auto.
+        apply zlookup_In in Ek. assert (k = n) by (eapply NoDup_snd_inj; eauto). subst. contradiction. }
+  assert (Hcov' : forallb (fun p => has_key p a) (func_args f) = true <-> ~ missing_key d (map vname vars)).
+  { rewrite <- Hcov. destruct (forallb _ (func_args f)); split; intros H; auto; try discriminate. }
+  (* NameError <-> a free name, once every parameter is bound *)
+  assert (Hname : forall env,
+            (forall n, env n = None <-> has_key n (ffixed f) = false /\ has_key n a = false) ->
+            forallb (fun p => has_key p a) (func_args f) = true ->
+            (eval env (fbody f) = Err e <-> e = EName /\ free_name f)).
+  { intros env Henv Hall. rewrite eval_err. unfold free_name.
+    rewrite forallb_forall in Hall.
+    split; intros [-> [n [Hn1 Hn2]]]; split; auto; exists n; split; auto.
+    - apply Henv in Hn2 as [H1 H2]. intros Hp.
+      assert (In n (func_args f)) by (unfold func_args; apply filter_In; split; auto; now rewrite H1).
+      rewrite Hall in H2; auto. discriminate.
+    - apply Henv. split.
+      + destruct (has_key n (ffixed f)) eqn:E; auto. exfalso. apply Hn2, Hfix. now apply has_key_iff.
+      + destruct (has_key n a) eqn:E; auto. exfalso. apply Hn2. apply Ha_sub in E. now apply Hfa_sub. }
+  unfold fn_call. destruct (fk f).
+  - (* ExpressionFunction *)
+    destruct (forallb (fun p => has_key p a) (func_args f)) eqn:E1; simpl.
+    + assert (E2 : forallb (fun kv => zmem (fst kv) (func_args f)) a = true).
+      { apply (forallb_keys (fun k => zmem k (func_args f))). intros k Hk. apply zmem_iff. auto. }
+      rewrite E2. simpl. rewrite Hname; auto.
+      * split; [intros H; right; split; [tauto|]; split; [now apply Hcov'|tauto]|].
+        intros [[_ H]|[H1 [_ H2]]]; auto. apply Hcov in H. discriminate.
+      * intros n. rewrite !has_key_lookup. destruct (zlookup n (ffixed f)), (zlookup n a); split; try tauto; try discriminate; intros [? ?]; discriminate.
+    + pose proof (proj1 Hcov eq_refl) as Hmiss. split.
+      * intros H. inversion H. auto.
+      * intros [[-> _]|[_ [H _]]]; [reflexivity | contradiction].
+  - (* python function / functools.partial *)
+    assert (E1 : forallb (fun kv => zmem (fst kv) (fparams f)) a = true).
+    { apply (forallb_keys (fun k => zmem k (fparams f))). intros k Hk. apply zmem_iff. now apply Hfa_sub, Ha_sub. }
+    assert (E2 : forallb (fun kv => zmem (fst kv) (fparams f)) (ffixed f) = true).
+    { apply (forallb_keys (fun k => zmem k (fparams f))). intros k Hk. apply zmem_iff, Hfix. now apply has_key_iff. }
+    rewrite E1, E2. simpl.
+    assert (E3 : forallb (fun p => has_key p a || has_key p (ffixed f)) (fparams f)
+                 = forallb (fun p => has_key p a) (func_args f)).
+    { unfold func_args. rewrite forallb_filter. apply forallb_ext_in. intros x _.
+      rewrite negb_involutive. apply orb_comm. }
+    rewrite E3. destruct (forallb (fun p => has_key p a) (func_args f)) eqn:E4; simpl.
+    + rewrite Hname; auto.
+      * split; [intros H; right; split; [tauto|]; split; [now apply Hcov'|tauto]|].
+        intros [[_ H]|[H1 [_ H2]]]; auto. apply Hcov in H. discriminate.
+      * intros n. rewrite !has_key_lookup. destruct (zlookup n (ffixed f)), (zlookup n a); split; try tauto; try discriminate; intros [? ?]; discriminate.
+    + pose proof (proj1 Hcov eq_refl) as Hmiss. split.
+      * intros H. inversion H. auto.
+      * intros [[-> _]|[_ [H _]]]; [reflexivity | contradiction].
+Qed.
+
+Lemma fun_gv_dict_exceptions f vars mapping fkw d e :
+  wf_fun f vars mapping fkw -> NoDup (map fst d) ->
+  (fun_gv_dict f mapping d = Err e <-> gv_dict_raises (RFun f vars mapping fkw) d e).
+Proof.
+  intros Hwf Hd. pose proof (wf_fun_facts _ _ _ _ Hwf) as (Hfst & _ & _).
+  unfold fun_gv_dict. rewrite fad_spec. simpl.
+  assert (E : forallb (fun kv => has_key (fst kv) mapping) d = forallb (fun kv => zmem (fst kv) (map vname vars)) d).
+  { apply forallb_ext_in. intros [k x] _. simpl. apply bool_eq_iff. rewrite has_key_iff, zmem_iff, Hfst. tauto. }
+  rewrite E. destruct (forallb (fun kv => zmem (fst kv) (map vname vars)) d) eqn:Ek; simpl.
+  - apply known_keys_iff in Ek.
+    rewrite (fn_call_exceptions f vars mapping fkw d e Hwf Hd (not_unknown_all _ _ Ek)). tauto.
+  - apply unknown_key_iff in Ek. split.
+    + intros H. inversion H. auto.
+    + intros [[-> _]|[[_ [H _]]|[_ [H _]]]]; [reflexivity | contradiction | contradiction].
+Qed.
+
+Lemma mat_item_sliced dims data o d e :
+  mat_item (RMat (filter (fun vs => negb (has_key (vname (fst vs)) d)) dims) data o) = Err e <->
+  e = EValue /\ not_single dims d.
+Proof.
+  simpl. destruct (forallb _ (filter _ dims)) eqn:E.
+  - split; [discriminate|]. intros [_ (v & s & Hin & Hk & Hl)]. exfalso.
+    rewrite forallb_forall in E. specialize (E (v, s)). simpl in E.
+    rewrite Nat.eqb_eq in E. apply Hl, E. apply filter_In. split; auto. simpl.
+    apply negb_true_iff. now apply has_key_false.
+  - apply forallb_false_ex in E as [[v s] [Hin Hl]]. apply filter_In in Hin as [Hin Hk]. simpl in *.
+    apply negb_true_iff, has_key_false in Hk. apply Nat.eqb_neq in Hl.
+    split; [intros H; inversion H; split; auto; exists v, s; auto | intros [-> _]; reflexivity].
+Qed.
+
+Lemma mat_gv_dict_exceptions dims data off d e :
+  mat_gv_dict dims data off d = Err e <-> gv_dict_raises (RMat dims data off) d e.
+Proof.
+  unfold mat_gv_dict. simpl. destruct (slice_mat dims data off d) as [u|es] eqn:Es; simpl.
+  - assert (Hnu : ~ unknown_key d (mnames dims)).
+    { intros Hu. assert (slice_mat dims data off d = Err EAttr) by (apply slice_mat_exceptions; auto). congruence. }
+    assert (Hno : ~ out_of_domain dims d).
+    { intros Ho. assert (slice_mat dims data off d = Err EValue) by (apply slice_mat_exceptions; auto). congruence. }
+    apply slice_mat_is_mat in Es as [o ->]. rewrite mat_item_sliced. tauto.
+  - pose proof (proj1 (slice_mat_exceptions dims data off d es) Es) as H. split.
+    + intros H'. inversion H'; subst. tauto.
+    + intros [[-> Hu]|[-> [Hnu _]]]; destruct H as [[-> Hu']|[-> [Hnu' _]]]; auto; contradiction.
+Qed.
+
+(* (4b) which malformed get_value_for_assignment(dict) raise which exception *)
+Lemma gv_dict_exceptions_spec_l b d e :
+  wf_b b -> NoDup (map fst d) -> (bgv_dict b d = Err e <-> gv_dict_raises b d e).
+Proof.
+  intros Hwf Hd. destruct b as [value|v par body|v|f vars mapping fkw|mdims data off|nvars]; simpl.
+  - destruct d; simpl; split; try discriminate.
+    + intros [_ H]. congruence.
+    + intros H; inversion H. split; auto. discriminate.
+    + intros [-> _]. reflexivity.
+  - destruct (zlookup (vname v) d) as [x|] eqn:E.
+    + assert (Hin : In (vname v) (map fst d)) by (apply has_key_iff; now rewrite has_key_lookup, E).
+      rewrite unary_f_err. split; [intros [-> H]; auto|]. intros [[_ H]|[-> [_ H]]]; [contradiction | auto].
+    + apply zlookup_None_notin in E. split; [intros H; inversion H; auto|].
+      intros [[-> _]|[_ [H _]]]; [reflexivity | contradiction].
+  - destruct (zlookup (vname v) d) as [x|] eqn:E.
+    + assert (Hin : In (vname v) (map fst d)) by (apply has_key_iff; now rewrite has_key_lookup, E).
+      split; [discriminate|]. intros [_ H]. contradiction.
+    + apply zlookup_None_notin in E. split; [intros H; inversion H; auto | intros [-> _]; reflexivity].
+  - exact (fun_gv_dict_exceptions f vars mapping fkw d e Hwf Hd).
+  - exact (mat_gv_dict_exceptions mdims data off d e).
+  - split; [discriminate | contradiction].
+Qed.
+
+(* ----- list form / positional call ----- *)
+Definition gv_list_raises (b : brel) (l : list Z) (e : err) : Prop :=
+  match b with
+  | RZero _ => e = EValue /\ l <> []
+  | RUnary v par body =>
+      (e = EValue /\ List.length l <> 1%nat) \/
+      (e = EName /\ List.length l = 1%nat /\ exists n, In n (fv body) /\ n <> par)
+  | RBool v => e = EValue /\ List.length l <> 1%nat
+  | RFun _ _ _ _ | RMat _ _ _ =>
+      (* more values than variables: IndexError; otherwise the dict form on the zipped prefix *)
+      (e = EIndex /\ (List.length (bdims b) < List.length l)%nat) \/
+      ((List.length l <= List.length (bdims b))%nat /\ gv_dict_raises b (combine (bnames b) l) e)
+  | RNeutral _ => False
+  end.
+
+Lemma fal_long vars mapping l :
+  (forall n, In n (map vname vars) -> has_key n mapping = true) ->
+  (List.length vars < List.length l)%nat -> fun_args_list vars mapping l = Err EIndex.
+Proof.
+  revert l. induction vars as [|v vs IH]; intros [|x l] Hm Hl; simpl in *; try lia; auto.
+  assert (Hk : has_key (vname v) mapping = true) by auto. rewrite has_key_lookup in Hk.
+  destruct (zlookup (vname v) mapping); [|discriminate]. rewrite IH; auto. lia.
+Qed.
+
+Lemma zip_names_le vars l :
+  (List.length l <= List.length vars)%nat -> zip_names vars l = Ok (combine (map vname vars) l).
+Proof.
+  revert vars; induction l as [|x l IH]; intros [|v vs]; simpl; intros H; try lia; auto.
+  rewrite IH by lia. reflexivity.
+Qed.
+
+Lemma zip_names_long vars l :
+  (List.length vars < List.length l)%nat -> zip_names vars l = Err EIndex.
+Proof.
+  revert vars; induction l as [|x l IH]; intros [|v vs]; simpl; intros H; try lia; auto.
+  rewrite IH by lia. reflexivity.
+Qed.
+
+Lemma in_combine_keys (ns l : list Z) n : In n (map fst (combine ns l)) -> In n ns.
+Proof.
+  revert l. induction ns as [|m ns IH]; intros [|y l]; simpl; auto; try tauto.
+  intros [H|H]; eauto.
+Qed.
+
+Lemma combine_keys_nodup (ns : list Z) (l : list Z) : NoDup ns -> NoDup (map fst (combine ns l)).
+Proof.
+  revert l. induction ns as [|n ns IH]; intros [|x l] H; simpl; try constructor.
+  - inversion H; subst. intros Hin. apply H2. eapply in_combine_keys; eauto.
+  - inversion H; auto.
+Qed.
+
+(* (4c) which malformed get_value_for_assignment(list) / r( *args ) raise which exception *)
+Lemma gv_list_exceptions_spec_l b l e :
+  wf_b b -> (bgv_list b l = Err e <-> gv_list_raises b l e) /\ bcall_pos b l = bgv_list b l.
+Proof.
+  intros Hwf. split; [|destruct b; reflexivity].
+  destruct b as [value|v par body|v|f vars mapping fkw|mdims data off|nvars]; simpl.
+  - destruct l; simpl; split; try discriminate.
+    + intros [_ H]. congruence.
+    + intros H; inversion H. split; auto. discriminate.
+    + intros [-> _]. reflexivity.
+  - destruct l as [|x [|y l]]; simpl.
+    + split; [intros H; inversion H; left; split; auto; lia|]. intros [[-> _]|[_ [H _]]]; [auto | discriminate].
+    + rewrite unary_f_err. split; [intros [-> H]; auto|]. intros [[_ H]|[-> [_ H]]]; [lia | auto].
+    + split; [intros H; inversion H; left; split; auto; lia|]. intros [[-> _]|[_ [H _]]]; [auto | discriminate].
+  - destruct l as [|x [|y l]]; simpl.
+    + split; [intros H; inversion H; split; auto; lia|]. intros [-> _]; auto.
+    + split; [discriminate|]. intros [_ H]. lia.
+    + split; [intros H; inversion H; split; auto; lia|]. intros [-> _]; auto.
+  - pose proof (wf_fun_facts _ _ _ _ Hwf) as (Hfst & _ & _).
+    unfold fun_gv_list. destruct (Nat.ltb (List.length vars) (List.length l)) eqn:El.
+    + apply Nat.ltb_lt in El. rewrite fal_long; auto.
+      2:{ intros n Hn. apply has_key_iff. now rewrite Hfst. }
+      simpl. split; [intros H; inversion H; auto|]. intros [[-> _]|[H _]]; [reflexivity | lia].
+    + apply Nat.ltb_ge in El. rewrite fal_eq by auto. fold (fun_gv_dict f mapping (combine (map vname vars) l)).
+      rewrite (fun_gv_dict_exceptions f vars mapping fkw); auto.
+      2:{ apply combine_keys_nodup. apply Hwf. }
+      unfold bnames. simpl. split; [auto|]. intros [[_ H]|[_ H]]; [lia | auto].
+  - unfold mat_gv_list. destruct (Nat.ltb (List.length mdims) (List.length l)) eqn:El.
+    + apply Nat.ltb_lt in El. rewrite zip_names_long by (now rewrite map_length).
+      simpl. rewrite map_length. split; [intros H; inversion H; auto|]. intros [[-> _]|[H _]]; [reflexivity | lia].
+    + apply Nat.ltb_ge in El. rewrite zip_names_le by (now rewrite map_length). simpl.
+      rewrite mat_gv_dict_exceptions. unfold bnames. simpl. rewrite map_length.
+      split; [auto|]. intros [[_ H]|[_ H]]; [lia | auto].
+  - split; [discriminate | contradiction].
+Qed.
+
+(* ----- keyword call ----- *)
+Definition call_kw_raises (b : brel) (kw : asg) (e : err) : Prop :=
+  match b with
+  | RUnary _ _ _ | RBool _ =>
+      (e = EValue /\ List.length kw <> 1%nat) \/ (List.length kw = 1%nat /\ gv_dict_raises b kw e)
+  | _ => gv_dict_raises b kw e
+  end.
+
+(* (4d) which malformed r( **kw ) raise which exception *)
+Lemma call_kw_exceptions_spec_l b kw e :
+  wf_b b -> NoDup (map fst kw) -> (bcall_kw b kw = Err e <-> call_kw_raises b kw e).
+Proof.
+  intros Hwf Hd. pose proof (gv_dict_exceptions_spec_l b kw e Hwf Hd) as G.
+  unfold bcall_kw. destruct b as [value|v par body|v|f vars mapping fkw|mdims data off|nvars]; unfold call_kw_raises.
+  - rewrite <- G. destruct kw; simpl; tauto.
+  - destruct kw as [|kv [|kv' kw]]; simpl is_nil; cbv iota.
+    + simpl. split; [intros H; inversion H; left; split; auto; lia|]. intros [[-> _]|[H _]]; [auto | discriminate].
+    + rewrite G. simpl. split; [auto|]. intros [[_ H]|[_ H]]; [lia | auto].
+    + simpl List.length. split; [intros H; inversion H; left; split; auto; lia|]. intros [[-> _]|[H _]]; [auto | discriminate].
+  - destruct kw as [|kv [|kv' kw]]; simpl is_nil; cbv iota.
+    + simpl. split; [intros H; inversion H; left; split; auto; lia|]. intros [[-> _]|[H _]]; [auto | discriminate].
+    + rewrite G. simpl. split; [auto|]. intros [[_ H]|[_ H]]; [lia | auto].
+    + simpl List.length. split; [intros H; inversion H; left; split; auto; lia|]. intros [[-> _]|[H _]]; [auto | discriminate].
+  - rewrite <- G. destruct kw; simpl is_nil; cbv iota; [|tauto].
+    unfold bcall_pos, bgv_list, bgv_dict, fun_gv_list, fun_gv_dict. destruct vars; simpl; tauto.
+  - rewrite <- G. destruct kw; simpl is_nil; cbv iota; [|tauto].
+    unfold bcall_pos, bgv_list, bgv_dict, mat_gv_list. destruct mdims; simpl; tauto.
+  - simpl. destruct kw; simpl; split; try discriminate; contradiction.
+Qed.
